@@ -118,18 +118,16 @@ func (dss *dataStoreSet) getDb(index int, create bool) (ds *dataStore, valid boo
 	return
 }
 
-func (dss *dataStoreSet) flushDb(index int) {
+// all databases that currently exist
+func (dss *dataStoreSet) allDbs() []*dataStore {
 	dss.mu.Lock()
 	defer dss.mu.Unlock()
 
-	delete(dss.dbs, index)
-}
-
-func (dss *dataStoreSet) flushAll() {
-	dss.mu.Lock()
-	defer dss.mu.Unlock()
-
-	dss.dbs = map[int]*dataStore{}
+	list := make([]*dataStore, 0, len(dss.dbs))
+	for _, ds := range dss.dbs {
+		list = append(list, ds)
+	}
+	return list
 }
 
 func (dss *dataStoreSet) getUser(userName string) (dsu *dataStoreUser, exists bool) {
